@@ -3,9 +3,12 @@ package mon
 import (
 	"bytes"
 	"encoding/json"
+	"errors"
 	"fmt"
+	"io"
 	"math"
 	"math/big"
+	"os"
 	"reflect"
 	"strings"
 	"unicode/utf8"
@@ -385,7 +388,84 @@ func init() {
 			{Name: "sites", Setup: c08Setup, N: c08N, Run: c08Run, Exhaustive: true},
 			{Name: "random", Setup: c08Setup, N: func(c *Ctx) int { return tierN(c, 20000, 5000000) }, Run: c08Random},
 			{Name: "history", Setup: c08Setup, N: func(c *Ctx) int { return tierN(c, 1500, 20000) }, Run: c08History},
+			{Name: "failing-marshalers", N: c08MarshalN, Run: c08Marshal, Exhaustive: true},
 		},
 	})
 	_ = jmespath.ErrSyntax
+}
+
+// ---- errors that come out of the data
+//
+// A document may contain values with methods (json.Marshaler, encoding.TextMarshaler, error,
+// fmt.Stringer); the only place the library calls into them is when it serialises a value
+// (to_string, and error texts).  Their errors are foreign to the library: whatever they are - one of
+// this package's own exported errors (a value that renders itself with jmespath.Search and passes the
+// error on), a wrapped one, an error of another package - the failure of the outer call is one
+// evaluation failure: exactly one category, never a static one for an expression that compiled.
+type failingValue struct {
+	err  error
+	text bool
+}
+
+func (f failingValue) MarshalJSON() ([]byte, error) {
+	if f.text {
+		return []byte(`"ok"`), nil
+	}
+	return nil, f.err
+}
+
+func (f failingValue) MarshalText() ([]byte, error) { return nil, f.err }
+
+type failingText struct{ err error }
+
+func (f failingText) MarshalText() ([]byte, error) { return nil, f.err }
+
+func c08InnerErrors() []error {
+	var out []error
+	for _, q := range []string{"items[", "abs(a, b)", "nosuch(a)", "abs('x')", "pad_left('a', `-1`)", "$undefined", "`1` / `0`", "abs(&a)"} {
+		_, err := jmespath.Search(q, map[string]any{"a": 1, "b": 2})
+		if err != nil {
+			out = append(out, err, fmt.Errorf("rendering report: %w", err))
+		}
+	}
+	for _, s := range sentinels {
+		out = append(out, s.e, fmt.Errorf("wrapped twice: %w", fmt.Errorf("inner: %w", s.e)))
+	}
+	out = append(out, io.EOF, io.ErrUnexpectedEOF, errors.New("plain"), fmt.Errorf("os: %w", os.ErrNotExist), &json.SyntaxError{Offset: 3}, errors.Join(jmespath.ErrSyntax, jmespath.ErrInvalidType))
+	return out
+}
+
+func c08MarshalN(c *Ctx) int { return len(c08InnerErrors()) }
+
+func c08Marshal(c *Ctx, idx int) {
+	inner := c08InnerErrors()[idx]
+	vals := []any{failingValue{err: inner}, &failingValue{err: inner}, failingText{inner}, map[string]any{"k": failingValue{err: inner}}, []any{json.Number("1"), failingText{inner}}, map[failingText]any{{inner}: 1}}
+	for vi, v := range vals {
+		doc := map[string]any{"report": v, "ok": "x", "list": []any{"a", v}}
+		for _, text := range []string{"to_string(report)", "to_string(@)", "[ok, to_string(report)]", "map(&to_string(@), list)", "list[?to_string(@) == 'a']", "join(',', [to_string(report)])", "not_null(missing, to_string(report))", "to_string(report) || ok", "report", "type(report)", "length(to_string(list))", "sort_by(list, &to_string(@))"} {
+			feats := map[string]string{"family": "failing-marshaler", "inner_error": clipS(inner.Error(), 60), "value": fmt.Sprint(vi)}
+			ls := c.LibSearch(text, doc)
+			c.c08Contract("Search", text, doc, ls)
+			e, lc := c.LibCompile(text)
+			if lc.Err != nil || lc.Panic != nil {
+				continue
+			}
+			le := c.LibExprSearch(e, text, doc)
+			c.c08Contract("Expression.Search", text, doc, le)
+			for _, l := range []LibOut{ls, le} {
+				if l.Panic != nil {
+					c.Report(Violation{Rule: "C08/panic", Expr: text, Data: gen.Describe(doc), Got: ShowOut(l), Features: feats})
+				} else if l.Err != nil && l.Cats&staticCats != 0 {
+					c.Report(Violation{Rule: "C08/static-fault-at-evaluation", Expr: text, Data: gen.Describe(doc), Got: ShowOut(l), Want: "no static category: the expression compiled", Features: feats})
+				} else if l.Err != nil && l.Cats != ref.CatEvalFailed && l.Cats != ref.CatType {
+					// (a foreign value where a JSON value is required is an invalid-type fault; a failing
+					// method of a data value is an evaluation failure)
+					c.Report(Violation{Rule: "C08/category", Expr: text, Data: gen.Describe(doc), Got: ShowOut(l), Want: "evaluation-failed or invalid-type (the fault is a foreign data value or one of its methods)", Features: feats})
+				}
+			}
+			if ls.Err != nil {
+				c.Nontrivial(text, fmt.Sprint(idx), fmt.Sprint(vi))
+			}
+		}
+	}
 }
